@@ -768,9 +768,22 @@ class Interp:
                     if (c1 or c2) == 'break':
                         # the rest runs only while the loop has not been left: a PREFIX of the iteration domain, not a filter
                         g = CALL(S('__until_break__'), [g])
+                    left = getattr(self, '_left', None)
+                    self._left = None
                     fr.guards.append(g)
                     body = self.sub(rest, fr)
                     fr.guards.pop()
+                    if left is not None and not fr.ctrl:
+                        # the rest ran only under g; where the other branch left by continue / break its state survives
+                        lenv, lheap = left
+                        for k in list(fr.env):
+                            a, b = fr.env.get(k), lenv.get(k)
+                            if b is not None and a != b:
+                                fr.env[k] = simp_top(('ite', g, a, b))
+                        for k in set(self.heap) | set(lheap):
+                            a, b = self.heap.get(k, k), lheap.get(k, k)
+                            if a != b:
+                                self.heap[k] = simp_top(('ite', g, a, b))
                     self.emit(Eff('if', fr.func, s, cond=g, then=body, orelse=[], ctrl=(fr.ctrl, None), synthetic=True))
                     fr.ctrl = None
                     break
@@ -1050,6 +1063,12 @@ class Interp:
             else: heap[k] = a if a == b else simp_top(('ite', c, a, b))
         fr.env, fr.defdepth, self.heap = env, dd, heap
         fr.ctrl = c1 if (c1 and c2) else None   # both branches leave
+        # state with which a branch left the current ITERATION (continue / break): it flows on to the next iteration
+        self._left = None
+        if c1 in ('continue', 'break') and not c2:
+            self._left = (e1, h1)
+        elif c2 in ('continue', 'break') and not c1:
+            self._left = (e2, h2)
         self.emit(Eff('if', fr.func, s, cond=c, then=b1, orelse=b2, ctrl=(c1, c2)))
 
     def modified_names(self, stmts):
